@@ -62,7 +62,8 @@ def jobs(tier):
     for d, per, n in gaps:
         jobs.append(Job(H + 'gap', dict(d=d, periodic=per, n=n),
                         pkg_key='default',
-                        max_paths=40000 if thorough else 6000))
+                        max_paths=40000 if thorough else 6000,
+                        split=6 if thorough and n >= 3 else None))
     # the shift as used by the nautilus bound: the points its ellipsoid
     # unions are built from have their largest gap across the boundary
     nbc = [dict(d=1, n=3, periodic=[0]), dict(d=2, n=3, periodic=[1]),
